@@ -183,6 +183,25 @@ func c09PlaceholderText(c *core.Ctx) bool {
 		c.Violation("result-depends-on-order|message-placeholders", map[string]any{"template": own[zconst.TypeString]["role_check"], "params": "role=guest, tier={{role}}/{{value}}", "input": "{{role}}-{{tier}}", "distinct_messages_over_40_runs": seen})
 		return false
 	}
+	// the same template idea on built-in tests (their issue's value is the destination): the text is the same on every run
+	own2 := zconst.LangMap{zconst.TypeString: {zconst.IssueCodeMin: "'{{value}}' is shorter than {{min}}", zconst.IssueCodeFallback: "string is invalid"}, zconst.TypeSlice: {zconst.IssueCodeMin: "{{value}} has fewer than {{min}} items", zconst.IssueCodeFallback: "slice is invalid"}}
+	seen2 := map[string]int{}
+	for i := 0; i < 20; i++ {
+		s := new(string)
+		l := z.String().Min(5).Parse("ab", s, z.WithIssueFormatter(conf.NewDefaultFormatter(own2)))
+		v := []string{"x"}
+		m := z.Slice(z.String()).Min(3).Validate(&v, z.WithIssueFormatter(conf.NewDefaultFormatter(own2)))
+		c.Eval(2)
+		if len(l) == 1 && len(m["$root"]) == 1 {
+			seen2[l[0].Message+" / "+m["$root"][0].Message]++
+		} else {
+			seen2["unexpected issue count"]++
+		}
+	}
+	if len(seen2) != 1 {
+		c.Violation("result-depends-on-order|message-with-value-placeholder", map[string]any{"templates": "'{{value}}' is shorter than {{min}} / {{value}} has fewer than {{min}} items", "distinct_messages_over_20_runs": seen2})
+		return false
+	}
 	c.Count("placeholder_text_rounds", 1)
 	return true
 }
